@@ -14,10 +14,10 @@ OUT=/verif/seeded/$NAME; mkdir -p $OUT
 cp $SRC/patch.diff $SRC/demo.rs $SRC/demo_path.txt $OUT/ 2>/dev/null
 [ -f $SRC/README.md ] && cp $SRC/README.md $OUT/README.md
 EV=$OUT/eval.txt; : > $EV
-WT=/tmp/confirm-wt; export CARGO_NET_OFFLINE=true
+WT=${SEED_WT:-/tmp/confirm-wt}; export CARGO_NET_OFFLINE=true
 if [ ! -d $WT ]; then git -C /repo worktree add --detach $WT HEAD >/dev/null 2>&1; fi
 git -C $WT checkout -q --detach $(git -C /repo rev-parse HEAD); git -C $WT checkout -q -- . ; git -C $WT clean -fdq
-export CARGO_TARGET_DIR=/tmp/confirm-target
+export CARGO_TARGET_DIR=${SEED_CT:-/tmp/confirm-target}
 DEMO_PATH=$(grep -oE 'crates/[A-Za-z0-9_./-]+\.rs' $OUT/demo_path.txt | head -1)
 DEMO_TEST=$(basename $DEMO_PATH .rs)
 DEMO_CRATE=$(echo $DEMO_PATH | sed -E 's#crates/([^/]+)/.*#\1#')
@@ -44,9 +44,9 @@ echo "CONFIRMED=$ok" | tee -a $EV
 # run the checks against the patched tree (scratch worktree via the development override: /repo
 # itself stays untouched so that other work can go on; same sources as `git -C /repo apply`)
 cd $WT && git apply $OUT/patch.diff && cd /verif
-export VERIF_REPO_OVERRIDE=$WT VERIF_TARGET_DIR=/tmp/seed-vt VERIF_OUT_DIR=/tmp/seed-out
+export VERIF_REPO_OVERRIDE=$WT VERIF_TARGET_DIR=${SEED_VT:-/tmp/seed-vt} VERIF_OUT_DIR=${SEED_OUT:-/tmp/seed-out}
 unset CARGO_TARGET_DIR
-mkdir -p /tmp/seed-out/evidence
+mkdir -p ${SEED_OUT:-/tmp/seed-out}/evidence
 for id in $PROP $EXTRA; do
   for tier in quick thorough; do
     s=$(date +%s); ./check $id --tier $tier > /tmp/seedeval-$id-$tier.log 2>&1; rc=$?; e=$(date +%s)
